@@ -25,7 +25,7 @@ from .c16 import gt_string, write_pgen, write_vcf
 from .core import Relation, err_kind
 
 PROP = "C17"
-CLAIMED = False
+CLAIMED = True
 COQ_MODULES = ["PearsonQ", "C17_Model", "C17_Check", "C17_Proofs", "C17_ProofsExact"]
 PROPERTY_MODULE = "C17_Property"
 ALLOWED_AXIOMS = []
